@@ -225,6 +225,82 @@ def check_class(model, ci, res, stats, partner=None):
     return b
 
 
+UNINIT = ('numpy.empty', 'numpy.empty_like', 'numpy.ndarray')
+
+
+def _full_slice(idx):
+    return (idx.kind == 'slice' and all(a.kind == 'const' and a.val is None for a in idx.args)) or \
+        (idx.kind == 'const' and idx.val is Ellipsis)
+
+
+def _same_index(a, b, depth=0):
+    if a is b:
+        return True
+    if depth > 6 or a.kind != b.kind:
+        return False
+    if a.kind == 'const':
+        return a.val == b.val and type(a.val) is type(b.val)
+    if a.kind in ('binop', 'tuple', 'unop') and a.val == b.val and len(a.args) == len(b.args):
+        return all(_same_index(x, y, depth + 1) for x, y in zip(a.args, b.args))
+    return False
+
+
+def _reaches_uninit(node, idx, seen, depth=0):
+    """Does a read at `idx` of the array value `node` possibly see memory that was never written?
+    True when some path through the store / phi / loop-entry chain reaches numpy.empty(_like)
+    without passing a store to the same index or a whole-array store."""
+    if node is None or not isinstance(node, Node) or node.nid in seen or depth > 400:
+        return None
+    seen.add(node.nid)
+    k = node.kind
+    if k == 'store':
+        if _full_slice(node.args[1]) or _same_index(node.args[1], idx):
+            return None
+        return _reaches_uninit(node.args[0], idx, seen, depth + 1)
+    if k == 'phi':
+        return _reaches_uninit(node.args[1], idx, seen, depth + 1) or _reaches_uninit(node.args[2], idx, seen, depth + 1)
+    if k == 'mu':
+        # value at loop entry (first iteration); the back edge only adds stores
+        return _reaches_uninit(node.args[0], idx, seen, depth + 1)
+    if k == 'call' and node.val in UNINIT:
+        return node
+    return None
+
+
+def uninitialised_reads(b, ci, res, stats):
+    """An element read of an array allocated with numpy.empty / empty_like that is not preceded,
+    on every path, by a store to the same element (or a whole-array store) returns whatever the
+    allocator left there: the result then depends on the history of the process, not on
+    (parameters, point, time)."""
+    reported = set()
+    for n in b.trace:
+        if n.kind != 'sub' or len(n.args) != 2:
+            continue
+        stats['element_reads'] = stats.get('element_reads', 0) + 1
+        idx = n.args[1]
+        if _full_slice(idx) or idx.kind == 'slice':
+            continue
+        root = _reaches_uninit(n.args[0], idx, set())
+        if root is None:
+            continue
+        fn, at = n.origin if n.origin else (None, None)
+        key = (getattr(fn, 'fullname', '?'), src_of(at) if at is not None else '')
+        if key in reported:
+            continue
+        reported.add(key)
+        res.obligations += 1
+        f = fn or ci.find_method('_run')
+        res.add(Finding(PROP, 'C06.uninitialised', f.module.relpath, f.qualname,
+                        'read of %s from an array allocated with %s' % (src_of(at)[:60] if at is not None else 'an element',
+                                                                        root.val.split('.')[-1]),
+                        "%s: `%s` reads an element of an array allocated with %s (line %s) that is not written before on every "
+                        "path (no store to the same element, no whole-array store): the value is whatever the allocator "
+                        "left in memory, so the returned solution depends on the history of the process"
+                        % (ci.name, src_of(at)[:80] if at is not None else '?', root.val,
+                           getattr(root.origin[1], 'lineno', '?') if root.origin else '?'),
+                        line=getattr(at, 'lineno', 0), construct=src_of(at) if at is not None else ''))
+
+
 def check_ctor_mutation(model, ci, res, stats):
     """No constructor mutates in place an object it received as an argument
     (or a default-argument object, which is shared by all calls)."""
@@ -322,6 +398,7 @@ def run(model, tier):
     for ci in classes:
         res.evaluations += 1
         b = check_class(model, ci, res, stats)
+        uninitialised_reads(b, ci, res, stats)
         if any(op != 0 for _, _, op, _ in b.shared_reads):
             res.nontrivial += 1
         res.analysed.append(ci.fullname)
@@ -349,6 +426,7 @@ def run(model, tier):
     res.extra['shared_location_reads_logged'] = stats['shared_reads']
     res.extra['reads_of_values_written_by_other_operations'] = sorted(set(stats['stale_reads']))[:40]
     res.extra['ctor_mutation_sites_scanned'] = stats['ctor_mutation_sites']
+    res.extra['element_reads_scanned_for_uninitialised_memory'] = stats.get('element_reads', 0)
     # batch clause
     from .. import pw
     pw.check(model, res, tier)
